@@ -387,7 +387,7 @@ proof fn lemma_quantile_determined<A: Ord, I: Interpolate<A>>(lane: Seq<A>, f1: 
     requires
         lawful_ord::<A>(), antisym::<A>(), perm(f1, lane), perm(f2, lane),
         lane_entry::<A, I>(f1, q, n, v1), lane_entry::<A, I>(f2, q, n, v2),
-    ensures v1 == v2, // [C20,C01,C19]
+    ensures v1 == v2, // [C20,C01,C18,C19] (C18: the bulk call and a single call both establish lane_entry for their own final arrangement)
 {
     let (lo1, hi1) = choose|lo: Option<A>, hi: Option<A>| #![auto]
         (if I::needs_lower_spec(q, n) { lo is Some && selected_at(f1, lower_index_spec(q, n) as int, lo->Some_0) } else { lo is None })
